@@ -201,6 +201,11 @@ static Outcome run_carry(const Args &a, uint64_t seed, Zygote &z, Case &probe_ou
     return o;
 }
 
+static bool res_hit(const J &res, const std::string &prop, const std::string &sig) {
+    if (const J *vv = res.get("viol")) for (auto &x : vv->a) if (x.str("p") == prop && x.str("sig") == sig) return true;
+    return false;
+}
+
 // worker: runs seeds base+idx for idx in my chunks, starting at start_idx
 static void pin_to_cpu(int k) {
     // all threads of one simulated process share one core: a baton hand-off is then a plain context switch
@@ -287,6 +292,90 @@ static J synth_crash(uint64_t seed, int status, const std::string &errtext, bool
     return j;
 }
 
+// History replay: one fresh process executes the runs of `hist` exactly as a long-lived worker would (same profile, same generation
+// context), then the run of `seed`.  Returns the result object of the final run: its result line, a synthesised crash result if the
+// process died inside it, or {"end":"history_died"} if the process ended before reaching it.
+static J history_trial(const Args &a, const std::vector<uint64_t> &hist, uint64_t seed, const std::string &errdir, double timeout_s) {
+    J none = J::obj(); none.set("end", "history_died");
+    int pfd[2]; if (pipe(pfd) != 0) return none;
+    std::string errfile = errdir + "/hist." + std::to_string(getpid()) + "." + std::to_string((unsigned long long)seed) + ".err";
+    pid_t pid = fork();
+    if (pid == 0) {
+        close(pfd[0]); child_setup(pfd[1], errfile);
+        pin_to_cpu((int)(getpid() % 16));
+        mallopt(M_MMAP_THRESHOLD, 1 << 30); mallopt(M_TRIM_THRESHOLD, 1 << 30);
+        Zygote zy; if (a.profile == "carry") zy = start_zygote(a);
+        runner_install(); install_signal_handlers();
+        GenOpts go; go.tier = a.tier; go.S = a.S; go.force_prec = a.force_prec;
+        long alloc_ctx_chunk = -1;
+        std::vector<uint64_t> all = hist; all.push_back(seed);
+        for (size_t k = 0; k < all.size(); ++k) {
+            bool last = k + 1 == all.size(); uint64_t sd = all[k];
+            long idx = (long)(sd - a.base), chunk = idx / a.S;
+            char hdr[64]; snprintf(hdr, sizeof hdr, "B %llu\n", (unsigned long long)sd); write_all(pfd[1], hdr);
+            sim::result_fd = last ? pfd[1] : -1;
+            if (last && sim::stderr_capture_fd >= 0) { if (ftruncate(sim::stderr_capture_fd, 0) != 0) {} }
+            go.index = idx;
+            if (a.profile == "carry") { Case pr; Outcome o = run_carry(a, sd, zy, pr); pr.seed = sd; if (last) write_all(pfd[1], "R " + result_line(pr, o) + "\n"); continue; }
+            if (a.profile == "alloc" && alloc_ctx_chunk != chunk) { compute_alloc_ctx(a, go, chunk); alloc_ctx_chunk = chunk; }
+            Case c = gen_case(a.profile, sd, go);
+            RunnerOpts ro; ro.record = false; ro.baseline_steps = 0;
+            Outcome o = run_case(c, ro);
+            if (last) write_all(pfd[1], "R " + result_line(c, o) + "\n");
+        }
+        _exit(0);
+    }
+    close(pfd[1]);
+    std::string buf, tag, sigfn; int sigc = 0; uint64_t lastB = 0; bool haveB = false, timeout = false; J result; bool have = false;
+    char tmp[65536]; double t0 = now_s();
+    for (;;) {
+        struct pollfd pf = {pfd[0], POLLIN, 0};
+        int r = poll(&pf, 1, 250);
+        if (r > 0) { ssize_t n = read(pfd[0], tmp, sizeof tmp); if (n <= 0) break; buf.append(tmp, (size_t)n); }
+        if (now_s() - t0 > timeout_s) { kill(pid, SIGKILL); timeout = true; break; }
+    }
+    close(pfd[0]); int st = 0; waitpid(pid, &st, 0);
+    std::istringstream is(buf); std::string line;
+    while (std::getline(is, line)) {
+        if (line.size() > 2 && line[0] == 'B') { lastB = strtoull(line.c_str() + 2, nullptr, 10); haveB = true; tag.clear(); }
+        else if (line.size() > 2 && line[0] == 'T') tag = line.substr(2);
+        else if (line.size() > 2 && line[0] == 'X') { J x; if (J::parse_str(line.substr(2), x)) { sigc = (int)x.num("signal"); sigfn = x.str("fn"); } }
+        else if (line.size() > 2 && line[0] == 'R') { if (J::parse_str(line.substr(2), result)) have = true; }
+    }
+    std::string errtext = slurp(errfile); unlink(errfile.c_str());
+    if (have) return result;
+    if (haveB && lastB == seed && !(WIFEXITED(st) && WEXITSTATUS(st) == 0)) return synth_crash(seed, st, errtext, timeout, sigc, tag, sigfn);
+    return none;
+}
+
+// delta debugging on a list of earlier runs: shortest sublist (kept in order) after which `seed` still shows (prop, sig)
+static bool minimise_history(const Args &a, std::vector<uint64_t> &hist, uint64_t seed, const std::string &prop, const std::string &sig, const std::string &errdir, int &trials) {
+    double t0 = now_s();
+    auto fails = [&](const std::vector<uint64_t> &h) { ++trials; return res_hit(history_trial(a, h, seed, errdir, 300), prop, sig); };
+    if (fails({})) { hist.clear(); return true; }
+    if (hist.empty() || !fails(hist)) return false;
+    size_t gran = 2;
+    while (hist.size() >= 1 && trials < 80 && now_s() - t0 < 600) {
+        size_t chunk = (hist.size() + gran - 1) / gran; bool reduced = false;
+        for (size_t lo = 0; lo < hist.size() && trials < 80; lo += chunk) {          // keep only one chunk
+            std::vector<uint64_t> sub(hist.begin() + (long)lo, hist.begin() + (long)std::min(hist.size(), lo + chunk));
+            if (sub.size() < hist.size() && fails(sub)) { hist = sub; gran = 2; reduced = true; break; }
+        }
+        if (!reduced) for (size_t lo = 0; lo < hist.size() && trials < 80; lo += chunk) {   // drop one chunk
+            std::vector<uint64_t> rest(hist.begin(), hist.begin() + (long)lo); rest.insert(rest.end(), hist.begin() + (long)std::min(hist.size(), lo + chunk), hist.end());
+            if (rest.size() < hist.size() && fails(rest)) { hist = rest; gran = std::max<size_t>(gran - 1, 2); reduced = true; break; }
+        }
+        if (!reduced) { if (chunk <= 1) break; gran = std::min(hist.size(), gran * 2); }
+    }
+    return fails(hist);   // gate: a fresh process with the minimised history reproduces the class
+}
+static void write_history_replay(const Args &a, const std::string &path, const std::string &prop, const std::string &sig, const std::string &detail, const std::vector<uint64_t> &hist, uint64_t seed) {
+    J file = J::obj(); file.set("property", prop).set("sig", sig).set("oracle_detail", detail).set("profile", a.profile).set("history_replay", true)
+        .set("seed", J((long long)seed)).set("base", J((long long)a.base)).set("S", a.S).set("tier", a.tier).set("flavour", a.flavour);
+    J hj = J::arr(); for (uint64_t h : hist) hj.push(J((long long)h)); file.set("history_seeds", hj);
+    std::ofstream f(path); f << file.dump() << "\n";
+}
+
 // run one fully explicit case in a forked child; returns the result object (with schedule log)
 J run_forked(const Case &c0, double timeout_s, const std::string &errdir, long baseline_steps) {
     int pfd[2];
@@ -369,7 +458,7 @@ struct Agg {
 static J map_to_j(const std::map<std::string, long> &m) { J o = J::obj(); for (auto &kv : m) o.set(kv.first, J((long long)kv.second)); return o; }
 
 // ------------------------------------------------------------------ batch
-struct Slot { std::string tag, sigfn; pid_t pid = -1; int fd = -1; std::string buf; bool inflight = false; uint64_t inflight_seed = 0; double since = 0; long next_idx = 0; bool done = false; std::string errfile; int sigc = 0; int restarts = 0; };
+struct Slot { std::string tag, sigfn; pid_t pid = -1; int fd = -1; std::string buf; bool inflight = false; uint64_t inflight_seed = 0; double since = 0; long next_idx = 0; bool done = false; std::string errfile; int sigc = 0; int restarts = 0; std::vector<long> starts; };
 
 static int cmd_batch(const Args &a) {
     double t0 = now_s();
@@ -395,6 +484,7 @@ static int cmd_batch(const Args &a) {
             _exit(0);
         }
         close(pfd[1]);
+        sl.starts.push_back(start_idx);
         sl.pid = pid; sl.fd = pfd[0]; sl.buf.clear(); sl.inflight = false; sl.done = false; sl.since = now_s(); sl.sigc = 0;
     };
     for (int s = 0; s < a.workers; ++s) spawn(s, 0, false);
@@ -467,6 +557,13 @@ static int cmd_batch(const Args &a) {
     J viols = J::arr(); int gate_fail = 0;
     GenOpts go; go.tier = a.tier; go.S = a.S; go.force_prec = a.force_prec;
     int nclass = 0;
+    auto slot_history = [&](uint64_t seed) {
+        long vidx = (long)(seed - a.base); int vslot = (int)((vidx / a.S) % a.workers);
+        long from = 0; for (long st_ : slots[(size_t)vslot].starts) if (st_ <= vidx) from = std::max(from, st_);
+        std::vector<uint64_t> hist;
+        for (long idx = from; idx < vidx; ++idx) { long ch = idx / a.S; if (ch % a.workers != vslot) { idx = (ch + 1) * a.S - 1; continue; } hist.push_back(a.base + (uint64_t)idx); }
+        return hist;
+    };
     for (auto &kv : agg.classes) {
         VClass &vc = kv.second;
         J v = J::obj();
@@ -477,26 +574,33 @@ static int cmd_batch(const Args &a) {
             // co-observed classes of prefix cases: they belong to other properties' checks and carry the prefix case's own seed
             v.set("gate", "n/a");
         } else if (!a.no_min && a.profile == "carry" && ++nclass <= 60) {
-            // replay = the seed itself (prefix and probe are functions of it); gate: a fresh worker must reproduce the class
-            int pfd[2]; bool hit = false;
-            if (pipe(pfd) == 0) {
-                pid_t pid = fork();
-                if (pid == 0) { close(pfd[0]); child_setup(pfd[1], errdir + "/carrygate.err"); Zygote z = start_zygote(a); runner_install(); Case pr; Outcome o = run_carry(a, vc.first_seed, z, pr); pr.seed = vc.first_seed; write_all(pfd[1], "R " + result_line(pr, o) + "\n"); _exit(0); }
-                close(pfd[1]); std::string buf; char tmp[65536]; ssize_t n; while ((n = read(pfd[0], tmp, sizeof tmp)) > 0) buf.append(tmp, (size_t)n); close(pfd[0]); int st = 0; waitpid(pid, &st, 0);
-                std::istringstream is(buf); std::string line;
-                while (std::getline(is, line)) if (line.size() > 2 && line[0] == 'R') { J res; if (J::parse_str(line.substr(2), res)) if (const J *vv = res.get("viol")) for (auto &x : vv->a) if (x.str("p") == vc.prop && x.str("sig") == vc.sig) hit = true; }
-            }
-            J file = J::obj(); file.set("property", vc.prop).set("sig", vc.sig).set("oracle_detail", vc.detail).set("profile", "carry").set("carry_seed", J((long long)vc.first_seed)).set("tier", a.tier).set("flavour", a.flavour);
+            // replay = (history, seed): the carry runs the same worker process executed before this seed since its last (re)start,
+            // minimised by delta debugging, then the seed itself (prefix and probe are functions of the seed).
+            // Gate: a fresh process that executes the minimised history and the seed must reproduce the class.
+            std::vector<uint64_t> hist = slot_history(vc.first_seed);
+            size_t hist0 = hist.size(); int trials = 0;
+            bool hit = minimise_history(a, hist, vc.first_seed, vc.prop, vc.sig, errdir, trials);
             std::string path = a.replay_dir + "/" + vc.prop + "-carry-" + std::to_string((unsigned long long)vc.first_seed) + ".json";
-            { std::ofstream f(path); f << file.dump() << "\n"; }
-            v.set("replay", path).set("gate", hit ? "ok" : "fail").set("min_summary", "seed-based replay (prefix and probe are regenerated from the seed)");
+            write_history_replay(a, path, vc.prop, vc.sig, vc.detail, hist, vc.first_seed);
+            char ms[200]; snprintf(ms, sizeof ms, "history replay: %zu earlier carry runs of the same worker process minimised to %zu, then the seed; %d re-executions", hist0, hist.size(), trials);
+            v.set("replay", path).set("gate", hit ? "ok" : "fail").set("min_summary", ms);
             if (!hit) ++gate_fail;
         } else if (!a.no_min && ++nclass <= 60) {
             Case c;
             if (!regen_case(a, vc.first_seed, c)) { v.set("gate", "fail").set("min_summary", "case could not be regenerated"); ++gate_fail; viols.push(v); continue; }
             MinResult mr = minimise_and_write(c, vc.prop, vc.sig, a.replay_dir, errdir, a.timeout_s, is_known ? 40 : a.max_min_runs, a.flavour);
             v.set("replay", mr.path).set("gate", mr.gate_ok ? "ok" : "fail").set("min_runs", (long long)mr.runs).set("min_summary", mr.summary);
-            if (!mr.gate_ok) ++gate_fail;
+            if (!mr.gate_ok) {
+                // not reproducible as the first case of a fresh process: does it need what earlier cases of the same worker process left behind?
+                std::vector<uint64_t> hist = slot_history(vc.first_seed);
+                size_t hist0 = hist.size(); int trials = 0;
+                if (!hist.empty() && minimise_history(a, hist, vc.first_seed, vc.prop, vc.sig, errdir, trials) && !hist.empty()) {
+                    std::string path = a.replay_dir + "/" + vc.prop + "-" + a.profile + "-history-" + std::to_string((unsigned long long)vc.first_seed) + ".json";
+                    write_history_replay(a, path, vc.prop, vc.sig, vc.detail, hist, vc.first_seed);
+                    char ms[260]; snprintf(ms, sizeof ms, "does not occur in a fresh process; reproduces after %zu earlier case(s) in the same process (state carried between calls): history of %zu minimised, %d re-executions", hist.size(), hist0, trials);
+                    v.set("replay", path).set("gate", "ok").set("min_summary", ms).set("needs_history", true);
+                } else ++gate_fail;
+            }
         }
         viols.push(v);
     }
@@ -532,13 +636,15 @@ static int cmd_one(const Args &a) {
 
 static int cmd_replay(const Args &a) {
     J f; if (!J::parse_str(slurp(a.file), f)) { fprintf(stderr, "cannot parse %s\n", a.file.c_str()); return 2; }
-    if (f.has("carry_seed")) {
-        Args a2 = a; a2.profile = "carry"; a2.tier = (int)f.num("tier");
-        uint64_t seed = (uint64_t)f.num("carry_seed");
-        Zygote z = start_zygote(a2); runner_install(); sim::result_fd = 1;
-        Case pr; Outcome o = run_carry(a2, seed, z, pr); pr.seed = seed;
-        printf("%s\n", result_line(pr, o).c_str());
-        for (auto &v : o.viols) if (v.prop == f.str("property") && v.sig == f.str("sig")) { printf("VIOLATION property=%s replay=%s\n", v.prop.c_str(), a.file.c_str()); return 1; }
+    if (f.has("history_replay") || f.has("carry_seed")) {
+        Args a2 = a; a2.profile = f.str("profile"); a2.tier = (int)f.num("tier");
+        if (f.has("base")) { a2.base = (uint64_t)f.num("base"); a2.S = (int)f.num("S"); }
+        uint64_t seed = (uint64_t)f.num(f.has("seed") ? "seed" : "carry_seed");
+        std::vector<uint64_t> hist; if (const J *hj = f.get(f.has("history_seeds") ? "history_seeds" : "carry_history")) for (auto &x : hj->a) hist.push_back((uint64_t)x.i);
+        std::string errdir = "/verif/build/tmp"; mkdir("/verif/build", 0755); mkdir(errdir.c_str(), 0755);
+        J res = history_trial(a2, hist, seed, errdir, 600);
+        printf("%s\n", res.dump().c_str());
+        if (res_hit(res, f.str("property"), f.str("sig"))) { printf("VIOLATION property=%s replay=%s\n", f.str("property").c_str(), a.file.c_str()); return 1; }
         printf("replay did not reproduce %s/%s\n", f.str("property").c_str(), f.str("sig").c_str());
         return 0;
     }
